@@ -1051,3 +1051,39 @@ package diam
 //@   requires msc != nil && msc.SCTPConn != nil
 //@   atcall SCTPWrite: [C16 C19] the_kernel_gets_the_stream_number: sameslice(ARG1, b) && ARG2 != nil && (stream != InvalidStreamID ==> ARG2.Stream == uint16(stream))
 //@ end
+//@
+//@ # ======================= client.go: dialled connections (C08) =====
+//@ # "one serve goroutine per accepted / dialled connection": like the accept loop, every way of opening a client
+//@ # connection creates a connection object of its own and starts its reader loop with a go statement (serve's
+//@ # precondition is checked at the go statement; the obligation is in the ledger, so serving inline is reported),
+//@ # then hands back that connection's writer without waiting for the loop.
+//@ func NewConn(rw, addr, handler, dp) (c, err)
+//@   property C08
+//@   requires rw != nil
+//@   ensures [C08] hands_back_the_writer_of_a_new_connection: err == nil ==> c != nil && typeis(c, *response) && fresh(c.(*response))
+//@ end
+//@ func dial(srv, timeout) (c, err)
+//@   property C08
+//@   requires srv != nil
+//@   ensures [C08] hands_back_the_writer_of_a_new_connection: err == nil ==> c != nil && typeis(c, *response) && fresh(c.(*response))
+//@ end
+//@ func dialTLS(srv, certFile, keyFile, timeout) (c, err)
+//@   property C08
+//@   requires srv != nil
+//@   ensures [C08] hands_back_the_writer_of_a_new_connection: err == nil ==> c != nil && typeis(c, *response) && fresh(c.(*response))
+//@ end
+//@ func getDialer(network, timeout, laddr) (d)
+//@   property C08
+//@   modifies
+//@   ensures [C08] a_dialer: d != nil
+//@ end
+//@ func getMultistreamDialer(network, timeout, laddr) (d)
+//@   property C08
+//@   modifies
+//@   ensures [C08] a_dialer: d != nil
+//@ end
+//@ func TLSConfigClone(cfg) (r)
+//@   property C08
+//@   modifies
+//@   ensures [C08] a_copy: cfg != nil ==> r != nil
+//@ end
